@@ -249,8 +249,17 @@ func runPurge(rc *RunCtx, prop, variant string) *simkit.Violation {
 			w.Faults = &simkit.FaultCfg{Stall: 60, Budget: 2, Eligible: func(c *simkit.Call) bool { return c.Client == purger }} // slow calls only: the 5-minute uploader fires
 		}
 	case "crash-resume":
+		// the build dies at one of its writes (two per index chunk: delete, put), early or after many chunks; sometimes it
+		// does not die at all and the operator simply runs it again with --resume over the completed index
+		nth := t.Range(0, 4)
+		if t.Bool(1, 2) {
+			nth = t.Range(5, 60)
+		}
 		w.Faults = &simkit.FaultCfg{Stall: 120, Budget: 3, Eligible: func(c *simkit.Call) bool { return c.Client == purger },
-			Plan: []*simkit.Planned{{Client: "purger", Nth: t.Range(0, 4), Kind: simkit.Kind(int(simkit.FCrashB) + t.Choose(2))}}}
+			Plan: []*simkit.Planned{{Client: "purger", Nth: nth, Kind: simkit.Kind(int(simkit.FCrashB) + t.Choose(2))}}}
+		if chunk > 5 && t.Bool(2, 3) {
+			chunk = uint64(t.Pick(1, 1, 2, 3)) // many chunks
+		}
 	}
 	// a late uploader that starts after the index build started (its blobs are more recent than the index)
 	lateTrees := []Tree{}
@@ -326,9 +335,21 @@ func runPurge(rc *RunCtx, prop, variant string) *simkit.Violation {
 		return pv
 	}
 	buildOK := bt.Err == nil && !purger.Dead
-	if purger.Dead {
-		w.Probe("build-crashed")
+	rerunComplete := variant == "crash-resume" && !purger.Dead && bt.Err == nil
+	if rerunComplete {
+		w.Probe("resume-over-completed-index")
+	}
+	if purger.Dead || rerunComplete {
+		if purger.Dead {
+			w.Probe("build-crashed")
+		}
+		if n := len(main.meta.KeysWithPrefix(model.ReverseIndexPrefix())); n >= 10 {
+			w.Probe("resume-over-10+-chunks")
+		}
 		// resume in a fresh process with a fresh local directory
+		if w.Faults == nil {
+			w.Faults = &simkit.FaultCfg{}
+		}
 		w.Faults.Plan = nil
 		purger = w.Client("purger2")
 		w.Faults.Eligible = func(c *simkit.Call) bool { return c.Client == purger }
